@@ -7,7 +7,7 @@ import sys
 
 wt, prop = sys.argv[1], sys.argv[2]
 prefix = sys.argv[3] if len(sys.argv) > 3 else "T"
-rnd = {"T": 2, "U": 3, "V": 4, "W": 5}.get(prefix, 2)
+rnd = {"T": 2, "U": 3, "V": 4, "W": 5, "X": 6, "Y": 7, "Z": 8}.get(prefix, 2)
 notes = {}
 try:
     notes = json.load(open(os.path.join(wt, "notes.json")))
